@@ -81,8 +81,13 @@ pub fn fixed_inputs(p: &Prepared, def: &DefSpec, caps: (usize, usize), n_random:
     // every pattern with a finite language at its maximal length (counted repetitions at their upper bound), alone and
     // followed by one more byte: the covering walk is capped and gives shortest witnesses only
     for pat in &p.reflex.pats {
-        if let crate::reference::Matcher::Dfa(d) = &pat.matcher {
-            if let Some(w) = d.longest_word(1024) {
+        let longest = match &pat.matcher {
+            crate::reference::Matcher::Dfa(d) => d.longest_word(1024),
+            // a plain literal token is its own longest word
+            crate::reference::Matcher::Exact(w) => Some(w.clone()),
+        };
+        {
+            if let Some(w) = longest {
                 if w.len() >= 8 && (!def.utf8 || std::str::from_utf8(&w).is_ok()) {
                     for tail in [&b""[..], b" ", b"a", b"0"] {
                         let mut v = w.clone();
